@@ -72,7 +72,7 @@ func computeFlow(c *Ctx, s FlowSpec) (*FlowTable, string, error) {
 		for _, b := range f.Blocks {
 			for _, in := range b.Instrs {
 				ci, ok := in.(ssa.CallInstruction)
-				if !ok || !re.MatchString(apo.CalleeName(ci.Common())) {
+				if !ok || !re.MatchString(apo.CalleeName(ci.Common())) || messageOnly(apo.CalleeName(ci.Common())) {
 					continue
 				}
 				set[apo.SubstParams(hd.CallDesc(ci.Common()), args)] = true
@@ -89,7 +89,7 @@ func computeFlow(c *Ctx, s FlowSpec) (*FlowTable, string, error) {
 	for _, b := range fn.Blocks {
 		for _, in := range b.Instrs {
 			if ci, ok := in.(ssa.CallInstruction); ok && s.Callee != "" {
-				if re.MatchString(apo.CalleeName(ci.Common())) {
+				if re.MatchString(apo.CalleeName(ci.Common())) && !messageOnly(apo.CalleeName(ci.Common())) {
 					set[d.CallDesc(ci.Common())] = true
 					if g := ci.Common().StaticCallee(); !ci.Common().IsInvoke() && apo.Inlinable(g) && g != fn {
 						var as []string
@@ -379,4 +379,9 @@ func FlowSpecs(c *Ctx, prop string) ([]FlowSpec, []string) {
 		return out, nil
 	}
 	return nil, nil
+}
+
+// messageOnly: calls that only build error / log text (rewording a message is not a change of data flow).
+func messageOnly(callee string) bool {
+	return strings.HasPrefix(callee, "fmt.") || strings.HasPrefix(callee, "errors.") || strings.HasSuffix(callee, ").Error")
 }
